@@ -286,6 +286,16 @@ def one_doc(ctx, cs, i=0):
     run_case(ctx, case, lines, doc.headers, expected_enc=doc_expected_enc(doc),
              nontrivial=bool(doc.tags & {'splits', 'joins', 'hostile_text'}))
     ctx.cls(*sorted(doc.tags))
+    if i % 2 == 0:
+        # other API calls between two imports (exports by measure, filtered exports, queries): the next import must not care
+        d_, _, _ = kpx.loads(render(lines))
+        if d_ is not None:
+            M_ = len(d_.measure_start_tree_stages)
+            for kw_ in ({'from_measure': 1, 'to_measure': 1}, {'to_measure': max(1, M_ - 1)}, {'from_measure': max(1, M_)},
+                        {'encoding': kpx.Enc.bEkern, 'spine_ids': [0]}):
+                if M_:
+                    kpx.dumps(d_, **kw_)
+            ctx.mon('intervening_api_calls', 4)
     if i % 3 == 0:
         surplus_case(ctx, case, lines, rng)
     if i == 1:
